@@ -36,6 +36,8 @@ class SurfaceMCNP:
         self.param_surface = tuple(param_surface)
         self.compl_param = tuple(compl_param)
         self.idorigin = tuple(idorigin) if idorigin is not None else ()
+        # set by the parser on the surfaces that make up a macrobody
+        self.from_macrobody = False
 
     def __repr__(self):
         return (f'SurfaceMCNP({self.boundary_cond!r}, {self.type_surface!r}, '
